@@ -130,12 +130,18 @@ def run (c : Case) : String :=
       let p := (fs.head?).bind (fun t => t.2.2.recovered)
       -- FromChannel: the goroutine delivers the completion; the subscriber's finalizers
       -- [close(done), the user's callback] run on it and the collected panic is re-raised
-      let p' := if (op.drop 3).toString == "FromChannel" then (runFinalizers [none, p]).2.head? else p
-      let isFuture := (op.drop 3).toString == "Future"
+      -- Never / ThrowOnContextCancel: the goroutine sends the terminal on context cancellation, the subscriber's
+      -- finalizers run on it; ToChannel: the goroutine registers its upstream subscription on a subscription that
+      -- was disposed in the meantime, which unsubscribes the source — whose teardown is the user's — at once
+      let name := (op.drop 3).toString
+      let viaFinalizers := name == "FromChannel" || name == "Never" || name == "ThrowOnContextCancel" || name == "ToChannel"
+      let p' := if viaFinalizers then (runFinalizers [none, p]).2.head? else p
+      let isFuture := name == "Future"
       let seen : List (Notif Int) :=
         if isFuture then (futureRun p 1).seen
-        else if (op.drop 3).toString == "FromChannel" then [.complete {}] else []
-      let seenS := if seen.isEmpty then "-" else ",".intercalate (seen.map renderNotifBare)
+        else if name == "FromChannel" then [.complete {}] else []
+      let seenS := if name == "Never" || name == "ThrowOnContextCancel" then "Ectxcanceled"   -- `ctx.Err()` of the cancelled context
+        else if seen.isEmpty then "-" else ",".intercalate (seen.map renderNotifBare)
       -- Future catches the factory's panic itself; the wrapper of its goroutine has nothing left to do
       let p' := if isFuture then none else p'
       s!"res {c.id} {renderGo (goBody rec p')} seen={seenS}"
